@@ -298,7 +298,12 @@ def log_only(text):
 def interp(body, env, P):
     """shape events of a block body"""
     evs = []
-    for st in statements(body):
+    sts = statements(body)
+    for i, st in enumerate(sts):
+        m = re.match(r"^drop\((\w+)\)$", st)
+        if m and m.group(1) in getattr(env, "guard_vars", ()) and \
+                all(x == getattr(env, "result_var", "\0") for x in sts[i + 1:]):
+            continue      # an explicit drop of a guard as the last action of the function = the implicit drop at scope end
         evs.extend(interp_stmt(st, env, P))
     return evs
 
@@ -315,14 +320,18 @@ def interp_stmt(st, env, P):
         env.result_var = m.group(1)                                  # foreign code whose result is returned later
         return [("SBody",)]
     m = re.match(r"^if let Some\(_?meta\) = self\.meta \{", st)
-    if m and st.endswith("}"):
-        inside, _ = block_of(st, m.end() - 1)
+    if m:
+        inside, end = block_of(st, m.end() - 1)
+        if end != len(st):
+            return [unrec(st)]                                       # an else branch
         inner_sts = statements(inside)
         if all(log_only(x) for x in inner_sts):
             return []
         m2 = re.match(r"^if let Some\(field\) = field\.as_field\(meta\) \{", inner_sts[0]) if len(inner_sts) == 1 else None
         if m2:
-            body2, _ = block_of(inner_sts[0], m2.end() - 1)
+            body2, end2 = block_of(inner_sts[0], m2.end() - 1)
+            if end2 != len(inner_sts[0]):
+                return [unrec(inner_sts[0])]
             return [("SIfField", interp(body2, env, P))]
         return [unrec(st)]
     if re.match(r"^let record = Record::new\(values\)$", st) or re.match(r"^let attrs = &new_span$", st) \
@@ -429,6 +438,8 @@ def interp_stmt(st, env, P):
         return [("SInvoke", S + "Span::" + m.group(2))]
     m = re.match(r"^let (\w+) = ([\w.]+)\.(enter)\(\)$", st)
     if m and env.is_span(m.group(2)):
+        if m.group(1) != "_":
+            env.guard_vars = set(getattr(env, "guard_vars", ())) | {m.group(1)}
         return [("STemp" if m.group(1) == "_" else "SGuard", S + "Span::enter")]
     m = re.match(r"^([\w.]+)\.(enter|entered)\(\)$", st)
     if m and env.is_span(m.group(1)):
@@ -442,6 +453,8 @@ def interp_stmt(st, env, P):
         return [("SMk", m.group(1))]
     if st == "Inner { id: self.collector.clone_span(&self.id), collector: self.collector.clone(), }" and "self" in env.inner:
         return [("SCall", "TOwn", "KCloneSpan"), ("SMk", "Inner")]
+    if st == "Inner { id: self.id.clone(), collector: self.collector.clone(), }" and "self" in env.inner:
+        return [("SMk", "Inner")]                                   # the Id is copied without telling the collector
     if st == "Inner { id, collector: collector.clone(), }" and env.cls == "Inner":
         return [("SMk", "Inner")]
     if st in ("Instrumented { inner: ManuallyDrop::new(self), span, }", "Instrumented { inner, span }"):
